@@ -187,7 +187,7 @@ fn has_tuple_arity(t: &St, arity: usize) -> bool {
 }
 
 pub fn run_c17(ctx: &Ctx) {
-    let k = if ctx.quick() { 3 } else { 4 };
+    let k = 4;
     let en = ShapeEnum::new(k, 3);
     let shapes: Vec<(Shape, St)> = en.upto(k).into_iter().filter_map(|s| schema_of(&s).map(|t| (s, t))).collect();
     let dom = Domain { cap: if ctx.quick() { 512 } else { 1024 }, long: false };
@@ -522,7 +522,7 @@ pub fn run_c18(ctx: &Ctx) {
     let k = if ctx.quick() { 3 } else { 4 };
     let en = SchemaEnum::new(k, 3);
     let trees = en.upto(k);
-    let strlen = if ctx.quick() { 3 } else { 4 };
+    let strlen = 4;
     let mut strings: Vec<Vec<u8>> = vec![];
     for l in 0..=strlen {
         vmodel::for_each_string(&A_DEC, l, &mut |s| strings.push(s.to_vec()));
